@@ -408,6 +408,10 @@ struct Shared {
     root: Root,
     /// The marker of the last committed overlay. `None` if the last commit was not an overlay.
     last_commit_marker: Option<OverlayMarker>,
+    /// The number of changesets applied through this handle. A changeset without a parent overlay
+    /// is only valid for the count it was prepared against: the root alone can come back to an
+    /// earlier value while the pages on disk have changed.
+    commit_count: u64,
 }
 
 /// Whether a key was read, written, or both, along with old and new values.
@@ -587,6 +591,7 @@ impl<T: HashAlgorithm> Nomt<T> {
             shared: Arc::new(Mutex::new(Shared {
                 root: Root(root),
                 last_commit_marker: None,
+                commit_count: 0,
             })),
             access_lock: Arc::new(RwLock::new(())),
             metrics,
@@ -666,9 +671,13 @@ impl<T: HashAlgorithm> Nomt<T> {
             None
         };
 
-        let prev_root = live_overlay
-            .parent_root()
-            .unwrap_or_else(|| self.root().into_inner());
+        let (prev_root, base_commit_count) = match live_overlay.parent_root() {
+            Some(parent_root) => (parent_root, None),
+            None => {
+                let shared = self.shared.lock();
+                (shared.root.into_inner(), Some(shared.commit_count))
+            }
+        };
 
         Session {
             store,
@@ -685,6 +694,7 @@ impl<T: HashAlgorithm> Nomt<T> {
             witness_mode: params.witness,
             access_guard,
             prev_root: Root(prev_root),
+            base_commit_count,
             _marker: std::marker::PhantomData,
         }
     }
@@ -834,6 +844,7 @@ pub struct Session<T> {
     // so this is dropped after all read transactions are taken, even when the session is dropped.
     access_guard: Option<ArcRwLockReadGuard<parking_lot::RawRwLock, ()>>,
     prev_root: Root,
+    base_commit_count: Option<u64>,
     _marker: std::marker::PhantomData<T>,
 }
 
@@ -956,6 +967,7 @@ impl<T: HashAlgorithm> Session<T> {
             rollback_delta,
             parent_overlay: self.overlay,
             prev_root: self.prev_root,
+            base_commit_count: self.base_commit_count,
             take_global_guard: self.access_guard.is_some(),
         })
     }
@@ -974,6 +986,8 @@ pub struct FinishedSession {
     rollback_delta: Option<rollback::Delta>,
     parent_overlay: LiveOverlay,
     prev_root: Root,
+    // The commit counter observed when the session began; `None` with a parent overlay.
+    base_commit_count: Option<u64>,
     // INTERNAL: whether to take a write guard while committing. always true except during rollback.
     take_global_guard: bool,
 }
@@ -1007,12 +1021,13 @@ impl FinishedSession {
             .collect();
         let values = self.value_transaction.into_iter().collect();
 
-        self.parent_overlay.finish(
+        self.parent_overlay.finish_with_base(
             self.prev_root.into_inner(),
             self.merkle_output.root,
             updated_pages,
             values,
             self.rollback_delta,
+            self.base_commit_count,
         )
     }
 
@@ -1032,7 +1047,11 @@ impl FinishedSession {
 
         {
             let mut shared = nomt.shared.lock();
-            if shared.root != self.prev_root {
+            if shared.root != self.prev_root
+                || self
+                    .base_commit_count
+                    .map_or(false, |c| c != shared.commit_count)
+            {
                 anyhow::bail!(
                     "Changeset no longer valid (expected previous root {:?}, got {:?})",
                     self.prev_root,
@@ -1040,6 +1059,7 @@ impl FinishedSession {
                 );
             }
             shared.root = Root(self.merkle_output.root);
+            shared.commit_count += 1;
             shared.last_commit_marker = None;
         }
 
@@ -1089,7 +1109,11 @@ impl FinishedSession {
         // The root cannot change while the write guard is held.
         {
             let shared = nomt.shared.lock();
-            if shared.root != self.prev_root {
+            if shared.root != self.prev_root
+                || self
+                    .base_commit_count
+                    .map_or(false, |c| c != shared.commit_count)
+            {
                 anyhow::bail!(
                     "Changeset no longer valid (expected previous root {:?}, got {:?})",
                     self.prev_root,
@@ -1114,7 +1138,11 @@ impl FinishedSession {
 
         {
             let mut shared = nomt.shared.lock();
-            if shared.root != self.prev_root {
+            if shared.root != self.prev_root
+                || self
+                    .base_commit_count
+                    .map_or(false, |c| c != shared.commit_count)
+            {
                 anyhow::bail!(
                     "Changeset no longer valid (expected previous root {:?}, got {:?})",
                     self.prev_root,
@@ -1122,6 +1150,7 @@ impl FinishedSession {
                 );
             }
             shared.root = Root(self.merkle_output.root);
+            shared.commit_count += 1;
             shared.last_commit_marker = None;
         }
 
@@ -1171,7 +1200,11 @@ impl Overlay {
 
         {
             let mut shared = nomt.shared.lock();
-            if shared.root != self.prev_root() {
+            if shared.root != self.prev_root()
+                || self
+                    .base_commit_count()
+                    .map_or(false, |c| c != shared.commit_count)
+            {
                 anyhow::bail!(
                     "Changeset no longer valid (expected previous root {:?}, got {:?})",
                     self.prev_root(),
@@ -1179,6 +1212,7 @@ impl Overlay {
                 );
             }
             shared.root = root;
+            shared.commit_count += 1;
             // Only an overlay that passed the check counts as committed.
             shared.last_commit_marker = Some(self.mark_committed());
         }
@@ -1236,7 +1270,11 @@ impl Overlay {
 
         {
             let mut shared = nomt.shared.lock();
-            if shared.root != self.prev_root() {
+            if shared.root != self.prev_root()
+                || self
+                    .base_commit_count()
+                    .map_or(false, |c| c != shared.commit_count)
+            {
                 anyhow::bail!(
                     "Changeset no longer valid (expected previous root {:?}, got {:?})",
                     self.prev_root(),
@@ -1244,6 +1282,7 @@ impl Overlay {
                 );
             }
             shared.root = root;
+            shared.commit_count += 1;
             // Only an overlay that passed the check counts as committed.
             shared.last_commit_marker = Some(self.mark_committed());
         }
